@@ -480,7 +480,7 @@ func (e *Engine) Discharge(results []*FuncResult, so SolveOpts) {
 	}
 	// stage A: two configurations per obligation, 8 obligations at a time (16 processes on 16 cores);
 	// stage B: what is still undecided goes to the whole portfolio, 3 obligations at a time.
-	runStage := func(obls []*Obl, set []solverSpec, par int) {
+	runStage := func(obls []*Obl, set []solverSpec, par int, mult int) {
 		sem2 := make(chan struct{}, par)
 		var wg2 sync.WaitGroup
 		for _, o := range obls {
@@ -500,7 +500,7 @@ func (e *Engine) Discharge(results []*FuncResult, so SolveOpts) {
 				ctx, cancel := context.WithCancel(context.Background())
 				for _, s := range set {
 					go func(s solverSpec) {
-						out, secs := runSolverCtx(ctx, s, f, so.TimeoutMS, time.Duration(so.TimeoutMS)*time.Millisecond+5*time.Second)
+						out, secs := runSolverCtx(ctx, s, f, so.TimeoutMS*mult, time.Duration(so.TimeoutMS*mult)*time.Millisecond+5*time.Second)
 						ch <- ans{firstStatus(out), s.name, secs}
 					}(s)
 				}
@@ -521,14 +521,15 @@ func (e *Engine) Discharge(results []*FuncResult, so SolveOpts) {
 		wg2.Wait()
 	}
 	twoStages := func(obls []*Obl) {
-		runStage(obls, []solverSpec{solvers[0], solvers[len(solvers)-1]}, 8)
+		runStage(obls, []solverSpec{solvers[0], solvers[len(solvers)-1]}, 8, 1)
 		var retry2 []*Obl
 		for _, o := range obls {
 			if o.Status != "unsat" && o.Status != "sat" {
 				retry2 = append(retry2, o)
 			}
 		}
-		runStage(retry2, solvers[1:], 3)
+		// the last resort gets three times the time: a loaded machine must not turn a slow proof into an alarm
+		runStage(retry2, solvers[1:], 3, 3)
 	}
 	// The same obligation usually recurs on many paths (name~2, name~3, ...). When it does not hold, retrying every
 	// instance on the whole portfolio costs minutes and tells nothing new: the first few instances of each base name
